@@ -20,14 +20,15 @@ PARALLEL = 6
 IMPORTS = "From Verif Require Import C19.Model C19.Spec C19.Corr."
 CASE_TYPE = "C19.Corr.case"
 RUNNER = "C19.Corr.run"
-FINDING_CLASSES = {1: "C19-F1", 2: "C19-F2", 3: "C19-F3", 4: "C19-F4"}
+FINDING_CLASSES = {1: "C19-F1", 2: "C19-F2", 3: "C19-F3", 4: "C19-F4", 5: "C19-F5"}
 RULE = ("histories of cache / logout operations against one real Saml2Client per case: (a) complete enumeration of the "
         "expiry boundary table not_on_or_after in {0, now-1, now, now+1} x check flag x read operation; (b) complete "
         "enumeration of logout flows over every ordered world of 1 or 2 IdPs out of 9 SLO-endpoint kinds x 3 preferred-"
         "binding orders (quick tier: order SRP complete, a seeded third of the worlds for the two other orders) x every "
         "answer order, each followed by a duplicate answer, an unknown InResponseTo, an answer from "
         "the wrong issuer, a re-login and the left-over answers; (b') three front-channel IdPs x every sequence of four "
-        "answers among the live requests (second, moot requests to a party included) + re-login + late answers; (c) IdP-initiated LogoutRequest for named/current subject "
+        "answers among the live requests (second, moot requests to a party included) + re-login + late answers; (b'') mixed front-channel / SOAP logouts of three IdPs x the SOAP IdP's answer (ok, http error, "
+        "failure status) in each of three passes x session information of the last IdP reset or not; (c) IdP-initiated LogoutRequest for named/current subject "
         "in subjects^2 x IdP kind x binding; (d) seeded random histories (length <= 40, 1-3 subjects out of 5 NameIDs that "
         "differ in one field only, 1-3 IdPs) with adaptive selection of pending request ids.  non-trivial = distinct "
         "(operation kind, output kind, world class) triples observed")
@@ -607,6 +608,31 @@ def three_idp_histories(thorough):
     return cases
 
 
+def soap_pass_histories():
+    """(b'') mixed logouts (front channel, SOAP, front channel): the SOAP IdP answers ok / http error / failure status
+    in each of three passes, with and without the third IdP's session information reset (a pass that raises
+    after the SOAP IdP has answered: class 5)"""
+    import itertools
+
+    cases = []
+    for idps in (["R", "S", "P"], ["P", "SR", "R"], ["S", "R", "P"]):
+        si = [i for i, k in enumerate(idps) if k.startswith("S")][0]
+        for reset in (False, True):
+            for a1, a2, a3 in itertools.product(["ok", "http", "fail"], repeat=3):
+                def ans(a):
+                    return ["ok" if j != si else a for j in range(3)]
+
+                ops = [["Login", 0, i, T0 + 1000, i + 1] for i in range(3)] + [["Login", 1, si, T0 + 1000, 8]]
+                if reset:
+                    ops.append(["Reset", 0, 2])
+                ops += [["StartLogout", 0, None, ans(a1)], ["GetIdentity", 0, [], True], ["Login", 0, 2, T0 + 1000, 4],
+                        ["LogoutResponse", {"live": 0}, "addr", True, ans(a2), "R"], ["GetIdentity", 0, [], True],
+                        ["LogoutResponse", {"live": 0}, "addr", True, ans(a3), "P"],
+                        ["GetIdentity", 0, [], True], ["GetIdentity", 1, [], True]]
+                cases.append(mk("SRP", idps, [0, 1], ops, "soap-pass"))
+    return cases
+
+
 def request_histories():
     """(c) IdP-initiated LogoutRequest: named x current x IdP kind x binding"""
     cases = []
@@ -736,6 +762,7 @@ def generate(ctx):
         cases += rng.sample(extra, len(extra) // 3)
     cases += flow_variants()
     cases += three_idp_histories(ctx.thorough)
+    cases += soap_pass_histories()
     cases += request_histories()
     for k in range(3000 if ctx.thorough else 300):
         cases.append(random_history(rng, k))
